@@ -6,9 +6,12 @@
 // end-of-contents, malformed OIDs, evidence bundles, documents lacking files, EC range classes).
 // Oracle per call: no panic; TotalAlloc delta <= 256 KiB + 4000 x len(input); CPU horizon 20 s.
 //
-// Files: c12.go (runtime: oracle, keys, watchdog, replay), eps.go (entry-point registry), ber.go (BER tree
-// used to build structure-aware inputs), seeds.go (genuine corpus + sessions), sections.go (sections 1-2),
-// grammar.go (section 3), evidence.go (evidence bundles, missing files, signature range classes).
+// Files: c12.go (runtime: oracle, violation keys, watchdog, replay), eps.go (entry-point registry; pipeline entry
+// points are named "<library path>/<what the input replaces>[<session>]"), ber.go (BER tree used to build
+// structure-aware inputs), seeds.go (genuine corpus, PKI profiles, live sessions, CBOR framing), sections.go
+// (1a/1b short strings, 2a genuine enumeration, 2 seed sweeps), grammar.go (3a-3i), evidence.go (3h CBOR grammar,
+// 4a evidence bundles, 4b missing files, 4c signature / key range classes).
+// Debugging aids (never needed for a normal run): C12_ONLY=1,2,3,4 selects sections, C12_STATS=1 prints timings.
 package c12
 
 import (
@@ -70,6 +73,7 @@ type runner struct {
 	curFile   string
 	stopAt    map[string]bool // ep|class for which the length-claim escalation is stopped
 	nCalls    int64
+	risky     bool
 	nSamples  int
 	maxA      map[string]uint64 // largest allocation delta seen per entry point (fast counter)
 	maxT      map[string]time.Duration
@@ -178,6 +182,7 @@ func (r *runner) markRisky(ep *EP, in []byte, class string) {
 		h = h[:4096]
 	}
 	os.WriteFile(r.curFile, []byte(fmt.Sprintf("%s\n%s\n%d\n%s\n", ep.Name, class, len(in), vc.Hex(h))), 0o644)
+	r.risky = true
 }
 
 // do runs one case through the oracle. Returns (value returned, violation found).
@@ -194,6 +199,10 @@ func (r *runner) do(sec string, ep *EP, in []byte, class string) (ok, bad bool) 
 	r.mu.Lock()
 	r.busy = false
 	r.mu.Unlock()
+	if r.risky { // the call came back: the marker must not outlive it
+		os.Remove(r.curFile)
+		r.risky = false
+	}
 	c := r.c
 	if d := a1 - a0; a1 > a0 && d > r.maxA[ep.Name] {
 		r.maxA[ep.Name] = d
@@ -434,7 +443,7 @@ func run(c *vc.Ctx) {
 				if len(s) > 300 {
 					s = s[:300]
 				}
-				c.Note("a previous run left " + filepath.Base(f) + " (a worker died inside this risky case): " + strings.ReplaceAll(s, "\n", " | "))
+				c.Note("a previous run left " + filepath.Base(f) + " (a worker of that run died inside this call): " + strings.ReplaceAll(s, "\n", " | "))
 			}
 		}
 	}
@@ -472,7 +481,8 @@ func stackOf() string {
 	return string(b[:runtime.Stack(b, false)])
 }
 
-// body runs all sections in a fixed order (identical in every worker).
+// body runs all sections in a fixed order (identical in every worker): the structure-aware sections, which are cheap
+// and reach deepest, first; the bulk exhaustive short-string section last, so that a starved run loses breadth there.
 func (r *runner) body() {
 	c := r.c
 	corpus, err := buildCorpus(c)
@@ -492,10 +502,6 @@ func (r *runner) body() {
 	lap("corpus")
 	only := os.Getenv("C12_ONLY") // debugging aid: comma separated subset of {1,2,3,4}; unset = all
 	want := func(s string) bool { return only == "" || strings.Contains(","+only+",", ","+s+",") }
-	if want("1") {
-		r.section1(corpus)
-		lap("section1")
-	}
 	if want("3") {
 		r.sectionGrammar(corpus)
 		lap("grammar")
@@ -509,6 +515,10 @@ func (r *runner) body() {
 		lap("genuine")
 		r.section2(corpus)
 		lap("section2")
+	}
+	if want("1") {
+		r.section1(corpus)
+		lap("section1")
 	}
 	if os.Getenv("C12_STATS") != "" {
 		for k, v := range r.maxA {
@@ -524,6 +534,20 @@ func (r *runner) body() {
 	if c.Shard == 0 {
 		c.Extra("entry_points", epNames())
 		c.Extra("seed_corpus", corpus.describe())
+		c.Extra("hypotheses_from_code_reading", map[string]string{
+			"document.NewDG16 -> parsePersonToNotify evaluates node.String() eagerly; oid.DecodeAsn1objectId panics on a malformed OID inside a person template":                                     "decided by sections 3f/2: key panic/document.NewDG16/oid.DecodeAsn1objectId when it reproduces",
+			"tlv node String() on tag 06 with a malformed OID (also a VALID OID of 128 bytes or more: the helper writes the length as one byte)":                                                     "decided by sections 1a/3f: key panic/tlv.TlvNodes.String/oid.DecodeAsn1objectId when it reproduces",
+			"verifier.Verify and mobile.Verifier.Verify have no recover, a panic below escapes":                                                                                                      "decided by the DG16 seeds fed through verifier.Verify/file:dg16 and mobile.Verifier.Verify/file:dg16",
+			"fixed earlier (BytesFromBuffer over-allocation, tlv.Unwrap indefinite length, chipauth.VerifyEvidence nil DG14 / nil key id / oversize SmSsc, brainpoolP192r1 alternative-curve retry)": "re-decided on every run by sections 3c, 3d, 4a, 4b, 4c and 2a (every DG14 shape as the DG14 of a CA session); a regression appears as alloc/... or panic/... violation",
+		})
+		c.Extra("not_covered", []string{
+			"the polynomial-time clause beyond the 20 s horizon (cubic modular exponentiation with a 16 KiB RSA modulus takes 0.6 s and is not judged)",
+			"inputs longer than 64 KiB, and claims that need more than the worker's address space to be refuted",
+			"the reader's response sequences (chip answers during a live read) - property C11",
+			"stack exhaustion by recursion deeper than the 16 300 levels that fit a 64 KiB input",
+			"htmlreport (not a byte-consuming entry point of the property) and cmd/",
+			"goroutines started by the library: a panic there cannot be contained by the harness and would surface as a dead worker (harness error with the case recorded in /verif/out/c12/current-<shard>.txt)",
+		})
 		if len(corpus.thoroughOnly) > 0 {
 			c.Extra("seeds_swept_in_thorough_only", corpus.thoroughOnly)
 		}
